@@ -713,7 +713,7 @@ pub fn net_oracles_parameters(ctx: &mut Ctx, spec: &NetSpec, net: &Network) {
     if !is(ctx, &["C10", "C08"]) {
         return;
     }
-    let reported = net::parameters_of(net);
+    let reported = match net::try_run(|| net::parameters_of(net)) { Ok(r) => r, Err(_) => return };
     let mut blocks = spec.builds.iter().filter_map(|b| match b { Build::Feedback { inner, .. } => Some(inner.len()), _ => None });
     let mut count = 0usize;
     for l in net.layers.iter() {
@@ -1220,6 +1220,20 @@ pub fn direct_c05(ctx: &mut Ctx) {
                 _ => input_for(&mut g, &spec.input),
             }).collect();
             let ts: Vec<Tensor> = (0..n).map(|i| { let mut t = vec![0.0f32; classes]; t[(i * 7) % classes] = 1.0; if i % 3 == 0 { t[(i * 7 + 4) % classes] = 1.0; } Tensor::single(t) }).collect();
+            jobs.push((spec, xs, ts));
+        }
+        // a sample whose loss is infinite (an outlier target under MSE) while its clamped gradient is finite: training goes
+        // on, and every other sample of its group still contributes its own gradient, however the group is split
+        for (oi, outliers) in [vec![0usize], vec![2, 7], vec![4, 5, 11]].iter().enumerate() {
+            use crate::gen::arch::dense_spec;
+            let dcfg = ArchCfg { dropout: false, wscale: 0.6, ..ArchCfg::small() };
+            let l1 = dense_spec(&mut g, &dcfg, 3, 4, "tanh", true);
+            let l2 = dense_spec(&mut g, &dcfg, 4, 1, "linear", true);
+            let spec = NetSpec { input: Shape::Single(3), builds: vec![Build::Layer(l1), Build::Layer(l2)], skipacc: "add".into(), loopacc: "mean".into(),
+                opt: Some(crate::ops::scalar::OptSpec::Sgd(0.05, None)), obj: ["mse", "mae", "mse"][oi].into(), clamp: Some((-1.0, 1.0)) };
+            let n = 16;
+            let xs: Vec<Tensor> = (0..n).map(|_| input_for(&mut g, &Shape::Single(3))).collect();
+            let ts: Vec<Tensor> = (0..n).map(|i| if outliers.contains(&i) { Tensor::single(vec![if oi == 1 { f32::INFINITY } else { 1e30 }]) } else { target_for(&mut g, &Sh::Flat(1), "mse") }).collect();
             jobs.push((spec, xs, ts));
         }
         // two feedback blocks of the same sizes and different wiring (input skips / output skips), trained one after the
